@@ -75,7 +75,7 @@ def destructive_kind(n):
 
 
 def open_flags(n):
-    if is_call(n, ("QFile::open", "QIODevice::open", "QFileDevice::open")) and skip_copies(n).get("args"):
+    if is_call(n, ("QFile::open", "QIODevice::open", "QFileDevice::open", "QSaveFile::open")) and skip_copies(n).get("args"):
         return const_int(skip_copies(n)["args"][0])
     return None
 
